@@ -9,8 +9,8 @@ git -C "$wt" checkout -q -- . && git -C "$wt" apply "$patch" || { echo "CONFIRM 
 cmake -G Ninja -S "$wt" -B "$wt/_cb" -DWITH_UNIT_TESTS=ON -DCMAKE_BUILD_TYPE=RelWithDebInfo >/dev/null && cmake --build "$wt/_cb" >/dev/null 2>&1 || { echo "CONFIRM build-failed-with-change"; exit 3; }
 ctest --test-dir "$wt/_cb" 2>&1 | grep "tests passed"; suite=$?
 case "$demo" in
- *.c) cc="gcc -std=gnu99 -O1 -I$wt/src -I$wt/src/wopn -I$wt/include $demo $wt/src/wopn/wopn_file.c -o $wt/_cb/demo_bin" ; grep -q 'include.*wopn_file.c' "$demo" && cc="gcc -std=gnu99 -O1 -I$wt/src -I$wt/src/wopn -I$wt/include $demo -o $wt/_cb/demo_bin";;
- *) cc="g++ -std=gnu++11 -O1 -DENABLE_END_SILENCE_SKIPPING -DOPNMIDI_MIDI2VGM -DNDEBUG -I$wt/include -I$wt/src $demo $wt/_cb/libOPNMIDI.a -o $wt/_cb/demo_bin";;
+ *.c) cc="gcc -std=gnu99 -O1 -fsanitize=address -I$wt/src -I$wt/src/wopn -I$wt/include $demo $wt/src/wopn/wopn_file.c -o $wt/_cb/demo_bin" ; grep -q 'include.*wopn_file.c' "$demo" && cc="gcc -std=gnu99 -O1 -fsanitize=address -I$wt/src -I$wt/src/wopn -I$wt/include $demo -o $wt/_cb/demo_bin";;
+ *) cc="g++ -std=gnu++11 -O1 -fsanitize=address -DENABLE_END_SILENCE_SKIPPING -DOPNMIDI_MIDI2VGM -DNDEBUG -I$wt/include -I$wt/src $demo $wt/_cb/libOPNMIDI.a -o $wt/_cb/demo_bin";;
 esac
 $cc || { echo "CONFIRM demo-compile-failed"; exit 3; }
 "$wt/_cb/demo_bin" >/dev/null 2>&1; with=$?
